@@ -300,6 +300,13 @@ inline std::string ext_utf8(const Units &src, const Params &p, const Judge &judg
         XVERB("operator\"\"_stbuf(const char8_t*,size)", ref::UTF8, src, operator""_stbuf(reinterpret_cast<const char8_t *>(s.e.data()), N));
     }
     XVERB("char_buffer(const char*,size).view()", ref::UTF8, src, cb.view());
+    // ST::null forms: an empty string / buffer whatever the object held before
+    XVERB("ST::string(ST::null)", ref::UTF8, NONE, ST::string(ST::null));
+    XVERB("s = ST::null", ref::UTF8, NONE, [&] { ST::string t = ST::string::from_validated(s.e.data(), N); t = ST::null; return t; }());
+    XVERB("s.set(ST::null)", ref::UTF8, NONE, [&] { ST::string t = ST::string::from_validated(s.e.data(), N); t.set(ST::null); return t; }());
+    XVERB("char_buffer(ST::null)", ref::UTF8, NONE, ST::char_buffer(ST::null));
+    XVERB("char_buffer = ST::null", ref::UTF8, NONE, [&] { ST::char_buffer b(cb); b = ST::null; return b; }());
+    XVERB("s = ST::null; s += ST::string", ref::UTF8, src, [&] { ST::string t = ST::string::from_validated(s.e.data(), N); t = ST::null; t += ST::string::from_validated(s.e.data(), N); return t; }());
     // --- std::filesystem::path sources: the string must hold exactly what path::u8string() reports
     {
         bool have = false; std::filesystem::path pa; Units pu;
@@ -529,6 +536,8 @@ template <class T> inline std::string ext_wide(const Units &src, const Params &p
         XVERB("operator\"\"_stbuf(const T*,size)", FROM, src, operator""_stbuf(s.e.data(), N));
     }
     XVERB("buffer<T>(const T*,size).view()", FROM, src, std::basic_string<T>(bf.view()));
+    XVERB("buffer<T>(ST::null)", FROM, NONE, ST::buffer<T>(ST::null));
+    XVERB("buffer<T> = ST::null", FROM, NONE, [&] { ST::buffer<T> b(bf); b = ST::null; return b; }());
     {
         size_t k = p.k > N ? N : p.k; size_t len = p.len > N - k ? N - k : p.len;
         const Units sl = slice(src, k, len);
